@@ -80,6 +80,9 @@ type Conn struct {
 	Reached       bool // request reached the server handler
 	Handed        bool // a response (headers + body) was handed to the client
 	HeadersAtStep int
+	// TruncatedByDeadline: the handler returned with an expired write deadline (the response could
+	// not be ended in order)
+	TruncatedByDeadline bool
 }
 
 // Net is the simulated network.
@@ -700,8 +703,19 @@ func (w *respWriter) finish() {
 	c.headersSent = true
 	c.flushed = len(c.buf)
 	c.serverDone = true
+	if !c.writeDL.IsZero() && !time.Now().Before(c.writeDL) && c.serverErr == nil {
+		// the handler left an expired write deadline behind: net/http cannot write the end of the
+		// response (last chunk) any more and tears the connection down - the client sees a
+		// truncated body instead of a clean end
+		c.serverErr = io.ErrUnexpectedEOF
+		c.TruncatedByDeadline = true
+	}
+	trunc := c.TruncatedByDeadline
 	c.broadcast()
 	c.mu.Unlock()
+	if trunc && !c.n.NoWriterContract {
+		c.n.s.addLibEvent(fmt.Sprintf("response truncated: the handler of c%d %s %s returned with an expired write deadline, the response cannot be ended in order (the client sees an unexpected EOF)", c.ID, c.Method, c.Path))
+	}
 }
 
 // ---- client side ---------------------------------------------------------------------------------
